@@ -146,6 +146,9 @@ def main():
             c.tlc_cmds.append(v.res.cmd)
         if v.accepted:
             break
+        if pos + v.matched >= len(events):
+            pv.log("INFRA: TruncTrace rejected without naming an event (matched %d of %d)\n%s" % (v.matched, v.total, v.res.stdout[-1500:]))
+            sys.exit(2)
         bad = events[pos + v.matched]
         c.violation("%s: after truncation step %d (eps = %s) the retain flags %s (largest weight above eps: %s) or the selection of world stripes do not follow the truncation rule" % (bad["id"], bad["step"], bad["eps"], bad["retained"], bad["above"]),
                     info[pos + v.matched], cls="selection")
